@@ -1480,10 +1480,15 @@ public:
             ctx_.enqueue(this, strptr_.flip(bkt[i], bktsize), depth_);
         }
 
-        this->substep_notify_done(); // release anonymous subjob handle
-
+        // without LCPs the bucket boundaries are no longer needed. Free them
+        // before the handle is released: afterwards this object may be gone.
         if (!strptr_.with_lcp)
             bkt_[0].destroy();
+
+        // release anonymous subjob handle. If all substeps are already done
+        // (or none were created), this calls substep_all_done() which deletes
+        // this object: no member may be touched after this line.
+        this->substep_notify_done();
     }
 
     /*------------------------------------------------------------------------*/
